@@ -4,14 +4,6 @@ import OptunaVerif.Lemmas.Nsga2Crowd
 namespace OptunaVerif.Nsga2
 open List
 
-/-- negate the objectives selected by the mask (missing mask entries = keep) -/
-def flipVals : List Bool → List XVal → List XVal
-  | m :: ms, v :: vs => (if m then xneg v else v) :: flipVals ms vs
-  | [], vs => vs
-  | _ :: _, [] => []
-
-def flipInd (mask : List Bool) (x : Ind XVal) : Ind XVal := { x with values := flipVals mask x.values }
-
 def flipOne (m : Bool) (v : XVal) : XVal := if m then xneg v else v
 
 theorem flipVals_length (mask : List Bool) (vs : List XVal) : (flipVals mask vs).length = vs.length := by
@@ -296,5 +288,181 @@ theorem fold_rel (mask : List Bool) (pop : List (Ind XVal)) (hnn : NoNaNPop pop)
     apply ih (fun j hj => htf j (by simp [hj]))
     · exact (crowdStep_perm xnum A i).trans hA
     · exact crowdStep_rel mask pop hnn hnum i (htf i (by simp)) A B hA h
+
+/-! ## the repaired `_crowding_distance_sort`: the order is a function of the distances and the numbers -/
+
+theorem noNaN_flip (mask : List Bool) (pop : List (Ind XVal)) (hnn : NoNaNPop pop) : NoNaNPop (pop.map (flipInd mask)) := by
+  intro z hz i
+  obtain ⟨w, hw, rfl⟩ := mem_map.1 hz
+  rw [flipInd_val]; exact notNaN_flipOne _ (hnn w hw i)
+
+/-- distances of the mirrored front = distances of the front (no NaN, distinct numbers, no per-objective ties) -/
+theorem calcCrowding_mirror (mask : List Bool) (p0 : Ind XVal) (t : List (Ind XVal)) (hnn : NoNaNPop (p0 :: t))
+    (hnum : ((p0 :: t).map (·.number)).Nodup) (htf : ∀ i < p0.values.length, TieFree (p0 :: t) i) (n : Nat) :
+    lookupD xnum n (calcCrowding xnum ((p0 :: t).map (flipInd mask))).2 = lookupD xnum n (calcCrowding xnum (p0 :: t)).2 := by
+  unfold calcCrowding
+  simp only [map_cons]
+  have hlen : (flipInd mask p0).values.length = p0.values.length := flipVals_length mask p0.values
+  rw [hlen]
+  have := fold_rel mask (p0 :: t) hnn hnum (List.range p0.values.length)
+    (fun i hi => htf i (by simpa using hi)) (p0 :: t, []) ((p0 :: t).map (flipInd mask), [])
+    (Perm.refl _) ⟨Perm.refl _, fun _ => rfl⟩
+  simpa using this.look n
+
+/-- … and of the same front listed in another order -/
+theorem calcCrowding_perm_invariant (p0 p0' : Ind XVal) (t t' : List (Ind XVal)) (hp : (p0' :: t').Perm (p0 :: t))
+    (hlen : p0'.values.length = p0.values.length) (hnn : NoNaNPop (p0 :: t))
+    (hnum : ((p0 :: t).map (·.number)).Nodup) (htf : ∀ i < p0.values.length, TieFree (p0 :: t) i) (n : Nat) :
+    lookupD xnum n (calcCrowding xnum (p0' :: t')).2 = lookupD xnum n (calcCrowding xnum (p0 :: t)).2 := by
+  unfold calcCrowding
+  simp only
+  rw [hlen]
+  have hid : (p0 :: t).map (flipInd []) = p0 :: t := by
+    rw [← List.map_id (p0 :: t)]
+    simp only [map_map]
+    apply map_congr_left
+    intro x _
+    cases x
+    simp [flipInd, flipVals]
+  have := fold_rel [] (p0 :: t) hnn hnum (List.range p0.values.length)
+    (fun i hi => htf i (by simpa using hi)) (p0 :: t, []) (p0' :: t', [])
+    (Perm.refl _) ⟨by rw [hid]; exact hp, fun _ => rfl⟩
+  exact this.look n
+
+theorem before_congr (d d' : Dists XVal) (h : ∀ n, lookupD xnum n d' = lookupD xnum n d) (a b : Ind XVal) :
+    Before d' a b ↔ Before d a b := by
+  unfold Before
+  rw [h a.number, h b.number]
+
+/-- the order on numbers that the sort realises -/
+def BeforeN (d : Dists XVal) (n m : Nat) : Prop :=
+  xlt (lookupD xnum n d) (lookupD xnum m d) = false ∧ (lookupD xnum n d = lookupD xnum m d → n ≤ m)
+
+theorem sorted_numbers_unique (d : Dists XVal) (hd : GoodD d) (l1 l2 : List (Ind XVal))
+    (h1 : l1.Pairwise (Before d)) (h2 : l2.Pairwise (Before d))
+    (hp : (l1.map (·.number)).Perm (l2.map (·.number))) : l1.map (·.number) = l2.map (·.number) := by
+  apply hp.eq_of_pairwise (le := BeforeN d)
+  · intro n m _ _ hnm hmn
+    have he := xlt_total (hd n).notNaN (hd m).notNaN hnm.1 hmn.1
+    have := hnm.2 he
+    have := hmn.2 he.symm
+    omega
+  · rw [pairwise_map]; exact h1
+  · rw [pairwise_map]; exact h2
+
+/-- **the repaired sort is symmetric**: same numbers, in the same order, for the front and its mirror image -/
+theorem crowdingSort_mirror (mask : List Bool) (p0 : Ind XVal) (t : List (Ind XVal)) (hnn : NoNaNPop (p0 :: t))
+    (hnum : ((p0 :: t).map (·.number)).Nodup) (htf : ∀ i < p0.values.length, TieFree (p0 :: t) i) :
+    (crowdingSort xnum ((p0 :: t).map (flipInd mask))).map (·.number) = (crowdingSort xnum (p0 :: t)).map (·.number) := by
+  obtain ⟨hpA, hgA, hsA⟩ := crowdingSort_desc (p0 :: t) hnn
+  obtain ⟨hpB, _, hsB⟩ := crowdingSort_desc ((p0 :: t).map (flipInd mask)) (noNaN_flip mask _ hnn)
+  have hd := calcCrowding_mirror mask p0 t hnn hnum htf
+  apply sorted_numbers_unique _ hgA
+  · exact hsB.imp (fun {a b} h => (before_congr _ _ hd a b).1 h)
+  · exact hsA
+  · refine (hpB.map _).trans (Perm.trans ?_ (hpA.map _).symm)
+    rw [map_map]
+    exact Perm.of_eq (map_congr_left (fun w _ => rfl))
+
+/-- **… and does not depend on the order in which the front is handed over** -/
+theorem crowdingSort_perm_invariant (p0 p0' : Ind XVal) (t t' : List (Ind XVal)) (hp : (p0' :: t').Perm (p0 :: t))
+    (hlen : p0'.values.length = p0.values.length) (hnn : NoNaNPop (p0 :: t))
+    (hnum : ((p0 :: t).map (·.number)).Nodup) (htf : ∀ i < p0.values.length, TieFree (p0 :: t) i) :
+    crowdingSort xnum (p0' :: t') = crowdingSort xnum (p0 :: t) := by
+  have hnn' : NoNaNPop (p0' :: t') := fun x hx i => hnn x (hp.subset hx) i
+  obtain ⟨hpA, hgA, hsA⟩ := crowdingSort_desc (p0 :: t) hnn
+  obtain ⟨hpB, _, hsB⟩ := crowdingSort_desc (p0' :: t') hnn'
+  have hd := calcCrowding_perm_invariant p0 p0' t t' hp hlen hnn hnum htf
+  have hsB' : (crowdingSort xnum (p0' :: t')).Pairwise (Before (calcCrowding xnum (p0 :: t)).2) :=
+    hsB.imp (fun {a b} h => (before_congr _ _ hd a b).1 h)
+  apply (hpB.trans (hp.trans hpA.symm)).eq_of_pairwise _ hsB' hsA
+  intro a b ha hb hab hba
+  have hn := before_antisymm _ hgA a b hab hba
+  exact inj_on_of_nodup_map hnum (hp.subset (hpB.subset ha)) (hpA.subset hb) hn
+
+/-! ## the elite selection does not depend on the order of the population -/
+
+/-- what makes the crowding sort of a front independent of the order it is handed over in: no NaN, distinct numbers,
+`d` objective values each, no two trials sharing a value in an objective -/
+structure FrontOK (d : Nat) (f : List (Ind XVal)) : Prop where
+  nn : NoNaNPop f
+  num : (f.map (·.number)).Nodup
+  len : ∀ x ∈ f, x.values.length = d
+  tf : ∀ i < d, TieFree f i
+
+theorem FrontOK.sublist {d : Nat} {f g : List (Ind XVal)} (h : FrontOK d f) (hs : g.Sublist f) : FrontOK d g :=
+  ⟨fun x hx i => h.nn x (hs.subset hx) i, h.num.sublist (hs.map _), fun x hx => h.len x (hs.subset hx),
+    fun i hi => (h.tf i hi).sublist (hs.map _)⟩
+
+theorem crowdingSort_perm_invariant' (d : Nat) (f f' : List (Ind XVal)) (hp : f'.Perm f) (hok : FrontOK d f) :
+    crowdingSort xnum f' = crowdingSort xnum f := by
+  cases f with
+  | nil => rw [hp.eq_nil]
+  | cons p0 t =>
+    cases f' with
+    | nil => exact absurd hp.symm.eq_nil (by simp)
+    | cons p0' t' =>
+      have h0 : p0.values.length = d := hok.len p0 (by simp)
+      have h0' : p0'.values.length = d := hok.len p0' (hp.subset (by simp))
+      exact crowdingSort_perm_invariant p0 p0' t t' hp (by omega) hok.nn hok.num (fun i hi => hok.tf i (by omega))
+
+theorem selectLoop_perm_invariant (d k : Nat) (fs fs' : List (List (Ind XVal)))
+    (hf : Forall₂ (fun f' f => f'.Perm f) fs' fs) (hok : ∀ f ∈ fs, FrontOK d f) (e e' : List (Ind XVal))
+    (he : e'.Perm e) : (selectLoop xnum k fs' e').Perm (selectLoop xnum k fs e) := by
+  induction hf generalizing e e' with
+  | nil => simpa [selectLoop] using he
+  | @cons f' f fs' fs hpf _ ih =>
+    simp only [selectLoop]
+    rw [he.length_eq, hpf.length_eq]
+    split
+    · exact ih (fun g hg => hok g (by simp [hg])) _ _ (he.append hpf)
+    · rw [crowdingSort_perm_invariant' d f f' hpf (hok f (by simp))]
+      exact he.append_right _
+
+theorem maxRank_perm {l1 l2 : List Nat} (h : l1.Perm l2) : maxRank l1 = maxRank l2 := by
+  unfold maxRank
+  apply h.foldl_eq'
+  intro x _ y _ z
+  omega
+
+theorem forall₂_map_same {γ δ : Type} (R : δ → δ → Prop) (g' g : γ → δ) (h : ∀ r, R (g' r) (g r)) (l : List γ) :
+    Forall₂ R (l.map g') (l.map g) := by
+  induction l with
+  | nil => exact Forall₂.nil
+  | cons a l ih => exact Forall₂.cons (h a) ih
+
+/-- **the elite population as a multiset does not depend on the order of the input population** (ranks permuted
+along with the trials): distinct numbers, no NaN, `d` objective values each, pairwise-distinct values per objective -/
+theorem eliteWith_perm_invariant (d k : Nat) (ranks ranks' : List Nat) (pop pop' : List (Ind XVal))
+    (hz : (pop'.zip ranks').Perm (pop.zip ranks)) (hl : ranks.length = pop.length) (hl' : ranks'.length = pop'.length)
+    (hok : FrontOK d pop) : (eliteWith xnum k ranks' pop').Perm (eliteWith xnum k ranks pop) := by
+  have hpop : pop'.Perm pop := by
+    have := hz.map Prod.fst
+    rwa [map_fst_zip (by omega), map_fst_zip (by omega)] at this
+  have hr : ranks'.Perm ranks := by
+    have := hz.map Prod.snd
+    rwa [map_snd_zip (by omega), map_snd_zip (by omega)] at this
+  unfold eliteWith
+  cases pop with
+  | nil => rw [hpop.eq_nil]
+  | cons p t =>
+    cases pop' with
+    | nil => exact absurd hpop.symm.eq_nil (by simp)
+    | cons p' t' =>
+      simp only
+      apply selectLoop_perm_invariant d k
+      · unfold perRank
+        rw [maxRank_perm hr]
+        apply forall₂_map_same
+        intro r
+        exact (hz.filter _).map _
+      · intro f hf
+        unfold perRank at hf
+        obtain ⟨r, _, rfl⟩ := mem_map.1 hf
+        apply hok.sublist
+        have h1 : ((((p :: t).zip ranks).filter (fun q => q.2 == r)).map (·.1)).Sublist (((p :: t).zip ranks).map (·.1)) :=
+          (filter_sublist).map _
+        rwa [map_fst_zip (by omega)] at h1
+      · exact Perm.refl _
 
 end OptunaVerif.Nsga2
